@@ -4,6 +4,7 @@
 //   - TLC-generated ASTs (VERIF_BEH), rendered to text here in several spellings,
 //   - a seeded grammar-directed generator over a larger vocabulary,
 //   - token-level mutations of valid renderings (mostly rejected inputs).
+//
 // The driver never judges: the node tree of the real parser is exported purely syntactically to the AST
 // JSON of specs/lib/Selectors.tla and every answer of the real code is logged for TLC.
 package main
@@ -35,6 +36,19 @@ func (d *drv) expr(text string, src string) {
 	}
 	d.seen[text] = true
 	ev := map[string]any{"text": text, "src": src}
+	if d.restr {
+		// restriction-soundness leg of C07: only the tree and its LabelRestrictions() are needed
+		sel, perr := safeParse(text)
+		ev["parse_ok"] = perr == nil
+		if perr == nil {
+			strs := map[string]bool{}
+			ev["ast"] = selgen.Export(sel.Root(), strs)
+			ev["restr"] = selgen.ExportRestrictions(sel.LabelRestrictions(), strs)
+			ev["ct"] = selgen.CharTable(strs)
+		}
+		d.log.Emit("expr", ev)
+		return
+	}
 	sel, perr := safeParse(text)
 	verr := safeValidate(text)
 	ev["parse_ok"] = perr == nil
@@ -51,9 +65,6 @@ func (d *drv) expr(text string, src string) {
 		ev["canon"] = canon
 		ev["uid"] = sel.UniqueID()
 		ev["evals"] = d.evals(sel)
-		if d.restr {
-			ev["restr"] = selgen.ExportRestrictions(sel.LabelRestrictions(), strs)
-		}
 		sel2, err2 := safeParse(canon)
 		ev["re_ok"] = err2 == nil
 		ev["re_validate_ok"] = safeValidate(canon) == nil
@@ -158,6 +169,9 @@ func (d *drv) random(t int, rnd *rand.Rand, perTrace int) {
 		d.expr(selgen.Join(toks, st), "gen")
 		// token-level mutations of the same rendering
 		nm := 1 + rnd.Intn(3)
+		if d.restr {
+			continue
+		}
 		for j := 0; j < nm; j++ {
 			mt := selgen.Mutate(rnd, toks)
 			d.expr(selgen.Join(mt, st), "mut")
@@ -213,14 +227,17 @@ func main() {
 				fmt.Fprintln(os.Stderr, "bad generated AST:", err)
 				os.Exit(2)
 			}
-			for _, st := range []*selgen.Style{selgen.PlainStyle(), selgen.DenseStyle(), selgen.RandomStyle(rnd)} {
+			for i, st := range []*selgen.Style{selgen.PlainStyle(), selgen.DenseStyle(), selgen.RandomStyle(rnd)} {
+				if d.restr && i > 0 {
+					break
+				}
 				d.expr(selgen.Join(selgen.Tokens(ast, st), st), "tlc")
 			}
 			// systematic token-level damage of the plain rendering: every proper prefix and every
 			// single dropped token (mostly rejected texts, for the Validate == Parse clause)
 			pst := selgen.PlainStyle()
 			toks := selgen.Tokens(ast, pst)
-			for i := 0; i < len(toks); i++ {
+			for i := 0; i < len(toks) && !d.restr; i++ {
 				d.expr(selgen.Join(toks[:i], pst), "tlc-prefix")
 				drop := append(append([]string{}, toks[:i]...), toks[i+1:]...)
 				d.expr(selgen.Join(drop, pst), "tlc-drop")
@@ -231,6 +248,13 @@ func main() {
 	for i := 0; i < env.N; i++ {
 		t++
 		d.random(t, rand.New(rand.NewSource(env.Seed*1000003+int64(i))), per)
+	}
+	if d.restr {
+		if err := lg.Close(); err != nil {
+			fmt.Fprintln(os.Stderr, err)
+			os.Exit(2)
+		}
+		return
 	}
 	// regression cases of the C06 finding fixed in /repo 88cb2cf (negations separated by parentheses:
 	// the canonical text "!!has(a)" used to re-parse to "has(a)"), in a trace of their own
